@@ -16,16 +16,30 @@ import (
 )
 
 // Two-hop histories: caller -> service A -> service B.  A's handler sets
-// response headers on its inbound context, makes 1-2 onward calls to B, each
-// on frugal.Clone(inbound) (the documented way), and may set more headers
-// afterwards.  B's handler sets a same-named header with another value and
-// extra headers.  Asserted:
-//   - the ORIGINAL caller sees exactly A's response headers (A's values, the
-//     _cid echo, nothing of B's);
-//   - on each clone A sees every header B set, with B's value;
-//   - B's handler observes the clone's request headers (same _cid and user
+// response headers on its inbound context, makes 1-2 onward calls to B, and
+// may set more headers afterwards.  Each onward call is made either on
+// frugal.Clone(inbound) or on the INBOUND CONTEXT ITSELF (the context given to
+// a handler carries a fresh request op id precisely so that it can be used for
+// onward calls; its response-header map then holds what the handler has set so
+// far for its own caller).  B's handler sets a same-named header with another
+// value and extra headers.  Asserted:
+//   - the ORIGINAL caller sees every response header A's handler set: exactly
+//     the model "A's headers set before the onward calls, then what B set in
+//     each onward call made on the inbound context (such a call is a call of
+//     this property whose caller context is the inbound one), then A's headers
+//     set afterwards" + the _cid echo.  Nothing of B's when every onward call
+//     was on a clone.  Where A's earlier value and B's value meet on one name
+//     either is accepted at the original caller; names only B set may be absent
+//     there (a later onward call on the same context may shed them); the
+//     caller's map equals A's context at handler return minus _opid;
+//   - on the context used for the onward call (clone or inbound) A sees every
+//     header B set, with B's value, when the onward call returns; an onward
+//     call on the inbound context leaves its response op id (the caller's) as
+//     it was;
+//   - B's handler observes that context's request headers (same _cid and user
 //     headers as the caller's) under a fresh op id, and B's reply is addressed
-//     to the clone's op id; the clone's op id is fresh.
+//     to that context's op id; a clone's op id is fresh, the inbound context's
+//     op id is not the caller's.
 
 type hopCase struct {
 	Leg, LegB string
@@ -34,6 +48,7 @@ type hopCase struct {
 	ASetPre   []wire.Pair // set before the onward calls
 	ASetPost  []wire.Pair // set after them
 	BSets     [][]wire.Pair
+	OnInbound []bool // per onward call: made on the inbound context itself (true) or on frugal.Clone(inbound)
 	Req       headerSet
 
 	mu            sync.Mutex
@@ -42,6 +57,7 @@ type hopCase struct {
 	cloneOpIDs    []string
 	cloneReq      []map[string]string
 	cloneRspAfter []map[string]string
+	inboundAfter  []map[string]string // the inbound context's response headers after each onward call
 	onwardErrs    []string
 	bReq          []map[string]string
 	bRspEntry     []map[string]string
@@ -51,18 +67,84 @@ type hopCase struct {
 func (hc *hopCase) witness(extra map[string]interface{}) map[string]interface{} {
 	w := map[string]interface{}{"leg_A": hc.Leg, "leg_B": hc.LegB, "case_index": hc.Index, "A_outcome": hc.AOutcome,
 		"caller_request_headers_set": qpairs(hc.Req.Pairs), "A_sets_before_onward_calls": qpairs(hc.ASetPre), "A_sets_after_onward_calls": qpairs(hc.ASetPost),
-		"A_final_response_headers": qmap(hc.aFinal), "onward_call_errors": hc.onwardErrs,
+		"A_final_response_headers": qmap(hc.aFinal), "onward_call_errors": hc.onwardErrs, "onward_call_made_on": hc.onwardModes(),
 		"replay": "case list is a pure function of (VERIF_SEED, tier, leg_A, case_index)"}
 	for i, b := range hc.BSets {
 		w[fmt.Sprintf("B_sets_in_onward_call_%d", i+1)] = qpairs(b)
 	}
 	for i, c := range hc.cloneRspAfter {
-		w[fmt.Sprintf("clone_%d_response_headers_after_onward_call", i+1)] = qmap(c)
+		w[fmt.Sprintf("onward_context_%d_response_headers_after_onward_call", i+1)] = qmap(c)
+	}
+	for i, c := range hc.inboundAfter {
+		w[fmt.Sprintf("A_inbound_response_headers_after_onward_call_%d", i+1)] = qmap(c)
+	}
+	if hc.inboundRspPre != nil {
+		w["A_inbound_response_headers_before_onward_calls"] = qmap(hc.inboundRspPre)
 	}
 	for k, v := range extra {
 		w[k] = v
 	}
 	return w
+}
+
+func (hc *hopCase) onwardModes() []string {
+	var out []string
+	for i := range hc.BSets {
+		if i < len(hc.OnInbound) && hc.OnInbound[i] {
+			out = append(out, "inbound-context")
+		} else {
+			out = append(out, "clone")
+		}
+	}
+	return out
+}
+
+func (hc *hopCase) anyOnInbound() bool {
+	for _, b := range hc.OnInbound {
+		if b {
+			return true
+		}
+	}
+	return false
+}
+
+// callerModel is what the original caller may see for every name: the list of
+// acceptable values (the last one is what a sequential reading gives).  A's
+// headers set before the onward calls, then B's headers of every onward call
+// made on the inbound context (B's value joins A's as acceptable on a shared
+// name), then A's headers set afterwards (A's value alone).  Names that only B
+// set are optional at the original caller (second result): A's handler did not
+// set them, they arrived on its context through an onward call, and a context
+// that is used for a further call may legally shed what an earlier call left
+// on it (same reading as the reuse dimension); what the property requires for
+// them is asserted where it applies - on the inbound context when the onward
+// call returns - and the reply is compared with A's final map separately.
+func (hc *hopCase) callerModel() (map[string][]string, map[string]bool) {
+	model := map[string][]string{}
+	optional := map[string]bool{}
+	defer func() {
+		for k := range model {
+			optional[k] = true
+		}
+		for _, p := range append(append([]wire.Pair{}, hc.ASetPre...), hc.ASetPost...) {
+			delete(optional, p.Name)
+		}
+	}()
+	for _, p := range hc.ASetPre {
+		model[p.Name] = []string{p.Value}
+	}
+	for i, set := range hc.BSets {
+		if i >= len(hc.OnInbound) || !hc.OnInbound[i] {
+			continue
+		}
+		for _, p := range set {
+			model[p.Name] = append(model[p.Name], p.Value)
+		}
+	}
+	for _, p := range hc.ASetPost {
+		model[p.Name] = []string{p.Value}
+	}
+	return model, optional
 }
 
 func pairsMap(ps []wire.Pair) map[string]string {
@@ -121,8 +203,13 @@ func (m *monitor) runTwoHop(ns *rig.NatsServer, specA, specB legSpec, legIdx, n 
 		hc.inboundRspPre = c.Ctx.ResponseHeaders()
 		for i := range hc.BSets {
 			hop = i
-			clone := frugal.Clone(c.Ctx)
-			clone.SetTimeout(10 * time.Second)
+			var clone frugal.FContext
+			if hc.OnInbound[i] {
+				clone = c.Ctx // the context the handler was given, as is
+			} else {
+				clone = frugal.Clone(c.Ctx)
+				clone.SetTimeout(10 * time.Second)
+			}
 			creq := clone.RequestHeaders()
 			var oerr error
 			if i%2 == 0 {
@@ -134,6 +221,7 @@ func (m *monitor) runTwoHop(ns *rig.NatsServer, specA, specB legSpec, legIdx, n 
 			hc.cloneOpIDs = append(hc.cloneOpIDs, creq["_opid"])
 			hc.cloneReq = append(hc.cloneReq, creq)
 			hc.cloneRspAfter = append(hc.cloneRspAfter, clone.ResponseHeaders())
+			hc.inboundAfter = append(hc.inboundAfter, c.Ctx.ResponseHeaders())
 			hc.onwardErrs = append(hc.onwardErrs, fmt.Sprint(oerr))
 			hc.mu.Unlock()
 		}
@@ -185,6 +273,23 @@ func (m *monitor) runTwoHop(ns *rig.NatsServer, specA, specB legSpec, legIdx, n 
 			}
 			hc.BSets = append(hc.BSets, set)
 		}
+		// which context carries each onward call: by case index all on a clone /
+		// all on the inbound context / drawn per call (so every leg has all
+		// three kinds at every seed, also with quick's 3 cases)
+		if q%3 == 1 && len(hc.ASetPre) < 2 {
+			// all-inbound case: at least one header of A's that B does not touch
+			hc.ASetPre = append(hc.ASetPre, wire.Pair{Name: fresh(), Value: val("/A")})
+		}
+		for range hc.BSets {
+			switch q % 3 {
+			case 0:
+				hc.OnInbound = append(hc.OnInbound, false)
+			case 1:
+				hc.OnInbound = append(hc.OnInbound, true)
+			default:
+				hc.OnInbound = append(hc.OnInbound, rng.Intn(2) == 0)
+			}
+		}
 		cur = hc
 		cid, _ := genCID(rng, fmt.Sprintf("h%d-%d", legIdx, q))
 		ctx := frugal.NewFContext(cid)
@@ -221,25 +326,67 @@ func (m *monitor) runTwoHop(ns *rig.NatsServer, specA, specB legSpec, legIdx, n 
 			extra["caller_response_headers_after"] = qmap(got)
 			m.run.Violation("C09:"+kind+":"+name, what, hc.witness(extra))
 		}
-		m.run.Distinct(fmt.Sprintf("twohop|%s>%s|%s|onward=%d|post=%d", name, hc.LegB, hc.AOutcome, len(hc.BSets), len(hc.ASetPost)))
-		// 1. the original caller: exactly A's headers
-		want := pairsMap(hc.ASetPre)
-		for k, v := range pairsMap(hc.ASetPost) {
-			want[k] = v
+		m.run.Distinct(fmt.Sprintf("twohop|%s>%s|%s|onward=%v|post=%d", name, hc.LegB, hc.AOutcome, hc.onwardModes(), len(hc.ASetPost)))
+		// 1. the original caller: every header A's handler set (model above)
+		model, optional := hc.callerModel()
+		model["_cid"] = []string{ctx.CorrelationID()}
+		want := map[string]string{} // sequential reading of the model, for the diff
+		callerOK := true
+		for k := range got {
+			if _, known := model[k]; !known {
+				callerOK = false // a name nobody set
+			}
 		}
-		want["_cid"] = ctx.CorrelationID()
-		if !mapsEqual(want, got) {
+		for k, vals := range model {
+			g, ok := got[k]
+			if !ok && optional[k] {
+				continue
+			}
+			want[k] = vals[len(vals)-1]
+			found := false
+			for _, v := range vals {
+				found = found || (ok && g == v)
+			}
+			callerOK = callerOK && found
+		}
+		if !callerOK {
 			kind, what := "caller-response-headers-differ", "after a two-hop call the caller's response headers are not the ones service A's handler set (+ the _cid echo)"
-			for _, set := range hc.BSets {
+			for i, set := range hc.BSets {
+				if hc.OnInbound[i] {
+					continue
+				}
 				for _, p := range set {
 					if g, ok := got[p.Name]; ok && g == p.Value && want[p.Name] != p.Value {
 						kind, what = "onward-call-response-leaked-to-caller", "a response header set by the DOWNSTREAM service B (received by A on a Clone of its inbound context) reached the original caller: it replaced A's value / appeared although A never set it"
 					}
 				}
 			}
+			if hc.anyOnInbound() {
+				// a header A's handler had set BEFORE an onward call made on its
+				// inbound context is absent at the caller, or has a value neither A
+				// nor (through such an onward call) B gave it
+				for _, p := range hc.ASetPre {
+					g, ok := got[p.Name]
+					acceptable := false
+					for _, v := range model[p.Name] {
+						acceptable = acceptable || (ok && g == v)
+					}
+					if !acceptable {
+						kind, what = "response-header-set-before-onward-call-on-inbound-context-lost", "a response header the handler set on the context it was given, BEFORE it used that same context for an onward call, is not visible on the caller's FContext when the call returns (absent, or a value nobody set)"
+						break
+					}
+				}
+			}
 			viol(kind, what, map[string]interface{}{"diff": diffMaps(want, got)})
 		} else {
 			m.run.Add("two_hop_caller_observations", 1)
+			// the reply carried A's context as it was when the handler returned
+			if !mapsEqual(without(hc.aFinal, "_opid"), got) {
+				viol("caller-response-headers-differ-from-handlers-final", "the caller's response headers are not the response headers A's context held when its handler returned (minus _opid)", map[string]interface{}{"diff": diffMaps(without(hc.aFinal, "_opid"), got)})
+			}
+			if hc.anyOnInbound() {
+				m.run.Add("two_hop_caller_observations_after_onward_call_on_inbound_context", 1)
+			}
 		}
 		// 2. per onward call: A sees B's headers on the clone; B saw the clone's context
 		for i, set := range hc.BSets {
@@ -253,12 +400,21 @@ func (m *monitor) runTwoHop(ns *rig.NatsServer, specA, specB legSpec, legIdx, n 
 			}
 			for k, v := range pairsMap(set) {
 				if g, ok := hc.cloneRspAfter[i][k]; !ok || g != v {
-					viol("onward-call-response-headers-differ", "a header the downstream handler set is not visible (with its value) on the cloned context A used for the onward call", map[string]interface{}{"onward_call": i + 1, "header": qs(k), "expected": qs(v), "observed": qs(g)})
+					viol("onward-call-response-headers-differ", "a header the downstream handler set is not visible (with its value) on the context A used for the onward call ("+hc.onwardModes()[i]+") when that call returned", map[string]interface{}{"onward_call": i + 1, "header": qs(k), "expected": qs(v), "observed": qs(g)})
 					break
 				}
 			}
 			cop := hc.cloneOpIDs[i]
-			if cop == hc.inboundOpID || cop == callerOp {
+			if hc.OnInbound[i] {
+				// the onward call travelled under the inbound context's own op id
+				if cop != hc.inboundOpID || cop == callerOp {
+					viol("handler-opid-not-fresh", "the context given to A's handler, used as is for an onward call, carries the caller's op id (or changed its op id)", map[string]interface{}{"onward_call": i + 1, "onward_opid": cop, "inbound_opid": hc.inboundOpID, "caller_opid": callerOp})
+				}
+				if hc.inboundAfter[i]["_opid"] != callerOp {
+					viol("inbound-response-opid-changed-by-onward-call", "after an onward call on the inbound context its response op id is no longer the caller's: A's reply would not carry the request's op id", map[string]interface{}{"onward_call": i + 1, "caller_opid": callerOp})
+				}
+				m.run.Add("two_hop_onward_calls_on_inbound_context", 1)
+			} else if cop == hc.inboundOpID || cop == callerOp {
 				viol("clone-opid-not-fresh", "frugal.Clone(inbound) carries the op id of the inbound / the caller's context", map[string]interface{}{"clone_opid": cop})
 			} else if other, fr := m.claimOpID(cop, "two-hop clone "+name); !fr {
 				viol("clone-opid-not-fresh", "the clone's op id was already seen on another context ("+other+")", map[string]interface{}{"clone_opid": cop})
